@@ -31,7 +31,11 @@ def find_goto(target_dir, crate, harness):
 def property_ids(goto, needle):
     out = subprocess.run(['cbmc', '--show-properties', '--json-ui', goto], capture_output=True, text=True).stdout
     ids = []
-    for e in json.loads(out):
+    try:
+        doc = json.loads(out)
+    except Exception:  # noqa
+        return ids
+    for e in doc:
         for p in e.get('properties', []) if isinstance(e, dict) else []:
             if needle in p.get('description', ''):
                 ids.append(p['name'])
